@@ -302,7 +302,10 @@ func expectedOf(sq *sequencer.Song) (want []placed, end int64) {
 	t32 := int64(sq.Ticks.Ticks32th())
 	prev := [2]uint8{4, 4}
 	var start int64
-	for _, b := range sq.Bars() {
+	// bars count in the order of their numbers (the export sorts by Bar.Number)
+	bars := append(sequencer.Bars(nil), sq.Bars()...)
+	sort.SliceStable(bars, func(i, j int) bool { return bars[i].Number < bars[j].Number })
+	for _, b := range bars {
 		cur := b.TimeSig
 		if cur != [2]uint8{0, 0} && cur != prev {
 			want = append(want, placed{start, string(smf.MetaMeter(cur[0], cur[1]))})
@@ -412,10 +415,42 @@ func imported(s song, f1 smf.SMF) {
 // exports: each export must follow the bar model of the song as it is now -
 // nothing may be remembered from an earlier export.
 func edited(s song, sq *sequencer.Song) {
-	for edit := 0; edit < 4; edit++ {
+	for edit := 0; edit < 6; edit++ {
 		what := ""
 		bars := sq.Bars()
 		switch edit {
+		case 4:
+			// a tempo event is put into the last bar (meta events in bars go to the
+			// first track of the multi-track export, next to the signatures)
+			// (positions inside the bar: an event behind the end of the song is outside the domain)
+			inBar := func(b *sequencer.Bar, pos int) uint8 {
+				l := 128 // a bar without a signature of its own inherits one; 4/4 at least is safe only if known
+				if b.TimeSig != [2]uint8{0, 0} {
+					l = int(b.TimeSig[0]) * 32 / int(b.TimeSig[1])
+				} else {
+					l = 1
+				}
+				if pos >= l {
+					pos = l - 1
+				}
+				if pos < 0 {
+					pos = 0
+				}
+				return uint8(pos)
+			}
+			last := bars[len(bars)-1]
+			last.Events = append(last.Events, &sequencer.Event{TrackNo: 0, Pos: inBar(last, 3), Message: smf.MetaTempo(133)})
+			if len(bars) >= 2 {
+				bars[0].Events = append(bars[0].Events, &sequencer.Event{TrackNo: 0, Pos: inBar(bars[0], 5), Message: smf.MetaText("x")})
+			}
+			what = "meta-events-in-bars"
+		case 5:
+			// the numbers of the first two bars are exchanged by hand
+			if len(bars) < 2 || bars[0].TimeSig == bars[1].TimeSig && len(bars[0].Events) == 0 && len(bars[1].Events) == 0 {
+				continue
+			}
+			bars[0].Number, bars[1].Number = bars[1].Number, bars[0].Number
+			what = "bar-numbers-exchanged"
 		case 0:
 			if len(bars) < 2 {
 				continue
